@@ -24,7 +24,7 @@ fn sandbox_dir() -> PathBuf {
 }
 
 pub fn gen_case(rng: &mut Rng, faults: bool) -> CliCase {
-    let input_name = rng.pick(&["in.xml", "input file.xml", "вход.xml", "a.b.c", "x", "-.xml"]).to_string();
+    let input_name = rng.pick(&["in.xml", "input file.xml", "вход.xml", "a.b.c", "x", "-.xml", "-"]).to_string();
     let input_name = if input_name == "-.xml" { "./-.xml".to_string() } else { input_name };
     let mut output_name = rng.pick(&["out.rs", "out put.rs", "выход.rs", "o", "sub.dir.rs"]).to_string();
     let input = match rng.below(100) {
@@ -75,6 +75,7 @@ pub fn gen_case(rng: &mut Rng, faults: bool) -> CliCase {
         90..=93 => OutState::ExistingLikeExpected(rng.pick(&["\n", "", "\n\n", " ", "\t\n"]).to_string()),
         94..=95 => OutState::DevNull,
         96 => OutState::DanglingSymlink,
+        98 => OutState::ExistingReadOnly(b"// write-protected older content, longer than nothing\n".to_vec()),
         97 => OutState::ExistingOtherSort,
         _ => OutState::IsDirectory,
     };
@@ -420,6 +421,7 @@ pub fn exec_case(case: &CliCase, ctr: &mut Ctr) -> Result<Exec, String> {
         OutState::DevNull => 6,
         OutState::DanglingSymlink => 7,
         OutState::ExistingOtherSort => 8,
+        OutState::ExistingReadOnly(_) => 9,
     });
     env.u64(expected.is_some() as u64);
     Ok(Exec { violation, trace: tr.0, fingerprint: fp.0, nontrivial: fired_any || failure_path, sim_steps: f.calls, discarded: None, shape: 0, env_sig: env.0 })
